@@ -17,6 +17,8 @@ Generated:
                     abstractmethod (memoisation would show up here);
   * `objInplace`    (class, method, source text) of in-place operations on attributes of self: `self.a[...] = …`, `self.a += …`,
                     `self.a.fill/sort/resize/put/itemset/partition/byteswap(...)`, `np.<f>(…, out=self.a)`;
+  * `paramWrites`   (file, function, statement) of every function in quara/{objects,utils,math,loss_function,
+                    minimization_algorithm,protocol,qcircuit} that may write into an array / container it received as a parameter;
   * `pgdSetConstraint` the shape of `ProjectedGradientDescent.set_constraint_from_standard_qt_and_option`: attributes assigned before
                     the guard, the guard attribute (`if self.<a> is not None: return`), and the branch table
                     (on_algo_eq_constraint, on_algo_ineq_constraint) -> name of the projection factory, `none` = else branch.
@@ -365,6 +367,90 @@ def pgd_set_constraint():
     return pre, guard, branches
 
 
+# ----------------------------------------------------------------------------- functions that write through their parameters
+SCAN_DIRS = ("objects", "utils", "math", "loss_function", "minimization_algorithm", "protocol", "qcircuit")
+VIEW_FUNCS={"asarray","asanyarray","reshape","ravel","atleast_1d","atleast_2d","squeeze","transpose","real","imag","asfarray","ascontiguousarray"}
+VIEW_METHODS={"reshape","ravel","view","squeeze","transpose","swapaxes"}
+VIEW_ATTRS={"T","real","imag","flat"}
+INPLACE={"fill","sort","resize","put","itemset","partition","byteswap","setfield"}
+def base(n):
+    while isinstance(n,(ast.Subscript,)): n=n.value
+    return n
+def is_view_of(expr, al):
+    # returns True if expr may alias a name in al
+    if isinstance(expr, ast.Name): return expr.id in al
+    if isinstance(expr, ast.Subscript): return is_view_of(expr.value, al)
+    if isinstance(expr, ast.Attribute) and expr.attr in VIEW_ATTRS: return is_view_of(expr.value, al)
+    if isinstance(expr, ast.Call):
+        f=expr.func
+        if isinstance(f, ast.Attribute) and f.attr in VIEW_METHODS: return is_view_of(f.value, al)
+        if isinstance(f, ast.Attribute) and isinstance(f.value, ast.Name) and f.value.id in ("np","numpy") and f.attr in VIEW_FUNCS and expr.args:
+            return is_view_of(expr.args[0], al)
+        if isinstance(f, ast.Attribute) and isinstance(f.value, ast.Name) and f.value.id in ("np","numpy") and f.attr=="array" and expr.args:
+            if any(k.arg=="copy" and isinstance(k.value, ast.Constant) and k.value.value is False for k in expr.keywords):
+                return is_view_of(expr.args[0], al)
+    if isinstance(expr,(ast.List,ast.Tuple)): return any(is_view_of(e,al) for e in expr.elts)
+    return False
+
+
+def param_writes():
+    """(file, function, statement) for every function of the numeric packages that may write into an array / container it
+    received as a parameter: subscript or augmented assignment, in-place ndarray methods, `out=`; aliases through plain
+    assignment, views (`np.asarray`, `reshape`, `ravel`, slices, `.T` …) and loop variables are followed (flow-insensitive
+    may-analysis)."""
+    out = []
+    for d in SCAN_DIRS:
+        for root, _, files in sorted(os.walk(os.path.join(common.REPO, "quara", d))):
+            for fn in sorted(files):
+                if not fn.endswith(".py"):
+                    continue
+                rel = os.path.relpath(os.path.join(root, fn), common.REPO)
+                tree = ast.parse(open(os.path.join(root, fn)).read())
+                for f in ast.walk(tree):
+                    if not isinstance(f, ast.FunctionDef):
+                        continue
+                    al = {a.arg for a in f.args.args + f.args.kwonlyargs if a.arg not in ("self", "cls")}
+                    if f.args.vararg:
+                        al.add(f.args.vararg.arg)
+                    changed = True
+                    while changed:
+                        changed = False
+                        for n in ast.walk(f):
+                            names = []
+                            if isinstance(n, ast.Assign) and is_view_of(n.value, al):
+                                names = [x for t in n.targets
+                                         for x in ([t] if not isinstance(t, (ast.Tuple, ast.List)) else t.elts)
+                                         if isinstance(x, ast.Name)]
+                            if isinstance(n, ast.For) and (is_view_of(n.iter, al) or (
+                                    isinstance(n.iter, ast.Call) and isinstance(n.iter.func, ast.Name)
+                                    and n.iter.func.id in ("enumerate", "zip", "reversed")
+                                    and any(is_view_of(a, al) for a in n.iter.args))):
+                                names = [x for x in ast.walk(n.target) if isinstance(x, ast.Name)]
+                            for x in names:
+                                if x.id not in al:
+                                    al.add(x.id); changed = True
+                    for n in ast.walk(f):
+                        hit = None
+                        if isinstance(n, (ast.Assign, ast.AugAssign)):
+                            tg = n.targets if isinstance(n, ast.Assign) else [n.target]
+                            for t in tg:
+                                for x in ([t] if not isinstance(t, (ast.Tuple, ast.List)) else t.elts):
+                                    if isinstance(x, ast.Subscript) and isinstance(base(x), ast.Name) and base(x).id in al:
+                                        hit = n
+                                    if isinstance(n, ast.AugAssign) and isinstance(x, ast.Name) and x.id in al:
+                                        hit = n
+                        if isinstance(n, ast.Call) and isinstance(n.func, ast.Attribute) and n.func.attr in INPLACE \
+                                and isinstance(base(n.func.value), ast.Name) and base(n.func.value).id in al:
+                            hit = n
+                        if isinstance(n, ast.Call):
+                            for k in n.keywords:
+                                if k.arg == "out" and is_view_of(k.value, al):
+                                    hit = n
+                        if hit is not None:
+                            out.append((rel, f.name, " ".join(ast.unparse(hit).split())[:70]))
+    return out
+
+
 # ----------------------------------------------------------------------------- emit
 def _s(x):
     return '"' + x.replace("\\", "\\\\").replace('"', '\\"') + '"'
@@ -378,6 +464,7 @@ def generate():
     cache_init, getters, deletes, writers = composite_system()
     ow, od, oi, ob, om, oc = object_tables()
     pre, guard, branches = pgd_set_constraint()
+    pw = param_writes()
     L = ["/-! GENERATED by harness/c13_translate.py from /repo on every run — do not edit.",
          "Attribute discipline of the classes behind the C13 state machines, read off the source with `ast`. -/",
          "namespace QGen.C13", "",
@@ -411,6 +498,10 @@ def generate():
           "def objCalls : List (String × String × List String × List String) := [",
           "  " + ",\n  ".join(f"({_s(c)}, {_s(m)}, {_ls([x for x in k if not x.startswith('super:')])}, "
                               f"{_ls([x[6:] for x in k if x.startswith('super:')])})" for c, m, k in oc) + "]", "",
+          "/-- (file, function, statement): functions of the numeric packages that may write into something they received as a",
+          "parameter (flow-insensitive may-analysis through aliases and views) -/",
+          "def paramWrites : List (String × String × String) := [",
+          "  " + ",\n  ".join(f"({_s(a)}, {_s(b)}, {_s(c)})" for a, b, c in pw) + "]", "",
           "/-- `set_constraint_from_standard_qt_and_option`: attributes assigned before the guard -/",
           f"def pgdPre : List String := {_ls(pre)}",
           "/-- the guard `if self.<a> is not None: return` -/",
